@@ -62,7 +62,10 @@ def cases(tier: str, seed: int) -> List[Dict[str, Any]]:
 def _e_pool() -> Tuple[List[str], List[str]]:
     from vf.gen import signature
     exprs = [src for _, src in G.depth1()] + [src for _, src in G.leaves()][:120] + ['(a + b) * f(x, k=[1, 2])', 'a if b else c', '-(-1)', 'a ** -b', '(a, b)[0]', 'x[1:2, ::3]']
-    return exprs, list(signature.ANNOTATIONS)
+    # values the regular docutils -> HTML -> stan conversion cannot carry (an entity the XML loader does not know, XML noncharacters):
+    # they are shown through the fallback renderer
+    exprs += ["'a\\xa0b'", "('x\\xa0y', 1 + b)", "['\\uffff', a * 2]", "{'k\\ufffe': f('\\xa0', b)}", "'\xa0 \xa0' + b", "b'\\xa0' + c", "f'{a}\\xa0'"]
+    return exprs, list(signature.ANNOTATIONS) + ["Literal['a\\xa0b']", "Dict['str', Literal['\\uffff']]"]
 
 
 class _Unstring(ast.NodeTransformer):
